@@ -10,6 +10,8 @@ import (
 
 	"github.com/dadrus/heimdall/internal/cache"
 	"github.com/dadrus/heimdall/internal/rules/endpoint"
+	"github.com/dadrus/heimdall/internal/rules/endpoint/authstrategy"
+	"github.com/dadrus/heimdall/internal/rules/oauth2/clientcredentials"
 	"github.com/dadrus/heimdall/internal/rules/rule"
 )
 
@@ -38,4 +40,15 @@ func (v *VerifProvider) PollWithin(cch cache.Cache, rsf RuleSetFetcher, d time.D
 	defer cancel()
 
 	return v.p.watchChanges(ctx, rsf)
+}
+
+// VerifNewPollerWithClientCredentials: as VerifNewPoller, but the endpoint authenticates with the OAuth2 client
+// credentials grant against tokenURL (as configured with auth: {type: oauth2_client_credentials, ...}).
+func VerifNewPollerWithClientCredentials(processor rule.SetProcessor, url, tokenURL string) (*VerifProvider, RuleSetFetcher) {
+	ep := &ruleSetEndpoint{Endpoint: endpoint.Endpoint{URL: url, AuthStrategy: &authstrategy.OAuth2ClientCredentials{
+		Config: clientcredentials.Config{TokenURL: tokenURL, ClientID: "client", ClientSecret: "secret"},
+	}}}
+	ep.init()
+
+	return &VerifProvider{p: &provider{p: processor, l: zerolog.Nop(), configured: true}}, ep
 }
